@@ -33,6 +33,9 @@ type c15Case struct {
 	// Pieces > 0: an ASCII literal is written as one quoted run per character plus that many EMPTY runs ("") spread over
 	// the literal - more tokens than characters; the declaration counts characters
 	Pieces int `json:"pieces,omitempty"`
+	// Twin (with InList, not for lists): the item is written twice on the same line, so a violated declaration gives two
+	// reports with the same text on one line, at different columns; the position of the SECOND is checked
+	Twin bool `json:"twin,omitempty"`
 }
 
 // badElement is a well-formed number that the item type cannot represent: it is written, so it is counted.
@@ -177,6 +180,10 @@ func checkC15(c c15Case) (ci caseInfo, err error) {
 	text := "S1F1 W\n" + item + "\n."
 	if c.InList {
 		text = "S1F1 W\n<L\n  <U1 7>\n  " + item + "\n>\n."
+		if c.Twin && c.Kind != model.L {
+			text = "S1F1 W\n<L\n  <U1 7>\n  " + item + " " + item + "\n>\n."
+			ci.label("twin-on-one-line")
+		}
 	}
 	if c.SameLine != "" && readsAsOneName(c.SameLine) {
 		text = "S1F1 W H->E " + c.SameLine + " " + strings.TrimPrefix(text, "S1F1 W\n")
@@ -418,6 +425,9 @@ func TestC15Enum(t *testing.T) {
 					}
 					for count := 0; count <= 5; count++ {
 						run(c15Case{Kind: kind, Form: form, Lo: fmt.Sprint(lo), Hi: fmt.Sprint(hi), Count: count, InList: (lo+hi+count)%2 == 1})
+						if kind != model.L {
+							run(c15Case{Kind: kind, Form: form, Lo: fmt.Sprint(lo), Hi: fmt.Sprint(hi), Count: count, InList: true, Twin: true})
+						}
 						if kind == model.A {
 							for pieces := 1; pieces <= 3; pieces++ {
 								run(c15Case{Kind: kind, Form: form, Lo: fmt.Sprint(lo), Hi: fmt.Sprint(hi), Count: count, InList: (lo+hi+count)%2 == 1, Pieces: pieces})
@@ -508,6 +518,9 @@ func TestC15(t *testing.T) {
 		}
 		if rapid.IntRange(0, 4).Draw(t, "sameLine") == 4 {
 			c.SameLine = rapid.SampledFrom([]string{"name", "Größe", "a✉b", "名前", "x", "😀", "ıſ", "n\u00e9"}).Draw(t, "sameLineName")
+		}
+		if c.InList && !c.AsVar && rapid.IntRange(0, 3).Draw(t, "twin") == 3 {
+			c.Twin = true
 		}
 		if c.Kind == model.A && !c.AsVar && rapid.IntRange(0, 2).Draw(t, "emptyRuns") == 2 {
 			c.Pieces = rapid.IntRange(1, 6).Draw(t, "pieces")
